@@ -128,8 +128,8 @@ Proof.
   - cbn [enc5_loop]. match goal with |- context [if ?c then _ else _] => destruct c end.
     + apply IH.
     + destruct batch as [|b0 br]; [apply IH|].
-      destruct (write_batch5 e (b0 :: br) false) as [[[pk1 e1]|]|[]] eqn:E1; try discriminate.
-      destruct (enc5_loop e1 r [nalu]) as [[[pk2 e2]|]|[]] eqn:E2; try discriminate.
+      destruct (write_batch5 e (b0 :: br) false) as [[[pk1 e1]|]|?] eqn:E1; try discriminate.
+      destruct (enc5_loop e1 r [nalu]) as [[[pk2 e2]|]|?] eqn:E2; try discriminate.
       intros H. apply inl_ok_inj, pair_equal_spec in H. destruct H; subst.
       eapply enc_post_app; [eapply write_batch5_post; exact E1|eapply IH; exact E2].
 Qed.
@@ -156,7 +156,7 @@ Proof.
   induction aus as [|au r IH]; intros e pkss e'.
   - cbn. intros H. injection H as <- <-. unfold enc_post. cbn. repeat split; constructor.
   - cbn [h265_encode_run].
-    destruct (h265_encode e au) as [[[pk1 e1]|]|[]] eqn:E1; try discriminate.
+    destruct (h265_encode e au) as [[[pk1 e1]|]|?] eqn:E1; try discriminate.
     destruct (h265_encode_run e1 r) as [[rest e2]|] eqn:E2; [|discriminate].
     intros H. injection H as <- <-. cbn [concat].
     eapply enc_post_app; [eapply h265_encode_post; exact E1|eapply IH; exact E2].
@@ -188,8 +188,8 @@ Proof.
     + destruct batch as [|b0 br].
       * apply IH; [assumption|]. right. left. reflexivity.
       * destruct Hok as [Hok|Hok]; [discriminate|].
-        destruct (write_batch5 e (b0 :: br) false) as [[[pk1 e1]|]|[]] eqn:E1; try discriminate.
-        destruct (enc5_loop e1 r [nalu]) as [[[pk2 e2]|]|[]] eqn:E2; try discriminate.
+        destruct (write_batch5 e (b0 :: br) false) as [[[pk1 e1]|]|?] eqn:E1; try discriminate.
+        destruct (enc5_loop e1 r [nalu]) as [[[pk2 e2]|]|?] eqn:E2; try discriminate.
         intros H. apply inl_ok_inj, pair_equal_spec in H. destruct H; subst.
         pose proof (write_batch5_post _ _ _ _ _ E1) as (_ & _ & _ & Hm & _).
         apply Forall_app. split.
